@@ -4,7 +4,8 @@
 // arguments and results, byte strings run-length coded.  Sizes: 0..600 bytes mostly, around the 255-byte line chunk
 // (253..256, 508..511), around the 65536-byte copy block and up to 200000 bytes; texts with LF / CR LF / lone CR, lines
 // of 0..2000 characters, with and without a final newline; BOM-prefixed UTF-8 / UTF-16LE / UTF-16BE files of random
-// scalar values.  Every read-back is accompanied by a "disk" event: the file as plain POSIX read() finds it.
+// scalar values.  The long-lived object is also asked itself ("hq": size, exists, isFile, content, firstBytes, text, lines,
+// readLine loop) between its own writes, closes and reopens.  Every read-back is accompanied by a "disk" event: the file as plain POSIX read() finds it.
 // spec/Trace_FileModel.tla recomputes every expected result from the logged arguments.
 #include "c17_common.h"
 #include "vrec.h"
@@ -134,9 +135,11 @@ struct Exec
 	std::string hmode; // mirror of the handle state, kept from POSIX facts and the calls made
 	bool dirty, heof;
 	long hpos;
+	long hknown; // the file size h has been told by an earlier query and keeps until close() (-1: none); FileModel!hknown
+	int bias;    // > 0: the next steps are calls on the long-lived object (query - write - close - query orders)
 	int scale;
 
-	Exec(Rng& r, Log& l, const std::string& dir, int sc) : rng(r), log(l), P(dir), h(toStr(P.p)), hmode("closed"), dirty(false), heof(false), hpos(0), scale(sc) {}
+	Exec(Rng& r, Log& l, const std::string& dir, int sc) : rng(r), log(l), P(dir), h(toStr(P.p)), hmode("closed"), dirty(false), heof(false), hpos(0), hknown(-1), bias(0), scale(sc) {}
 
 	bool freePath(const std::string& x) const { return x != "p" || hmode == "closed"; }
 	bool settled(const std::string& x) const { return x != "p" || !dirty; }
@@ -197,9 +200,81 @@ struct Exec
 		}
 	}
 
+	static bool hasBom(const std::string& b)
+	{
+		if (b.size() >= 2 && (((unsigned char)b[0] == 0xff && (unsigned char)b[1] == 0xfe) || ((unsigned char)b[0] == 0xfe && (unsigned char)b[1] == 0xff))) return true;
+		return b.size() >= 3 && (unsigned char)b[0] == 0xef && (unsigned char)b[1] == 0xbb && (unsigned char)b[2] == 0xbf;
+	}
+
+	// a query through the long-lived object itself, in whatever state its own earlier queries, writes and closes left it
+	// (FileModel!HQuery).  Within the discipline: no unflushed data; what h remembers about the file, if anything, still
+	// describes it (otherwise exists() - which looks the file up afresh - is asked instead).
+	void hquery()
+	{
+		if (!settled("p")) return;
+		std::string b;
+		bool ex = posixRead(P.p, b);
+		long sz = ex ? (long)b.size() : -1;
+		bool infoOK = hknown == -1 || hknown == sz;
+		bool atStart = hmode == "closed" || (hmode == "r" && hpos == 0 && !heof);
+		int k = rng.below(10);
+		std::string head = "{\"op\":\"hq\",";
+		// k: 0 exists, 1 2 size, 3 isFile, 4 5 content, 6 text, 7 firstBytes, 8 9 lines / readLine loop
+		bool needsInfo = k >= 1 && k <= 6, needsStart = k >= 4 && k <= 7, needsClosed = k >= 8;
+		if ((needsInfo && !infoOK) || (needsStart && !atStart) || (needsClosed && hmode != "closed")) k = infoOK && rng.chance(50) ? 2 : 0;
+		if (k == 0)
+		{
+			bool r = h.exists();
+			hknown = sz;
+			log.line(head + ks("k", "exists") + ",\"n\":0," + kv("r", (long long)(r ? 1 : 0)) + "}");
+		}
+		else if (k == 1 || k == 2) { long long r = h.size(); hknown = sz; log.line(head + ks("k", "size") + ",\"n\":0," + kv("r", r) + "}"); }
+		else if (k == 3) { bool r = h.isFile(); hknown = sz; log.line(head + ks("k", "isfile") + ",\"n\":0," + kv("r", (long long)(r ? 1 : 0)) + "}"); }
+		else if (k == 4 || k == 5)
+		{
+			std::string r = fromBytes(h.content());
+			hknown = sz;
+			if (ex) { hmode = "r"; hpos = sz; heof = false; }
+			log.line(head + ks("k", "content") + ",\"n\":0,\"r\":" + rle(r) + "}");
+		}
+		else if (k == 6)
+		{
+			if (!textDefined(b)) return;
+			std::string r = fromStr(h.text());
+			hknown = sz;
+			if (ex) { hmode = "r"; hpos = sz; heof = hasBom(b); }
+			log.line(head + ks("k", "text") + ",\"n\":0,\"r\":" + rle(r) + "}");
+		}
+		else if (k == 7)
+		{
+			int n = rng.chance(30) ? (int)b.size() + rng.range(-2, 3) : rng.chance(50) ? pickLen(rng, scale) : rng.below((int)b.size() + 2);
+			if (n < 0) n = 0;
+			std::string r = fromBytes(h.firstBytes(n));
+			if (ex) { hmode = "r"; hpos = n < sz ? n : sz; heof = n > sz; }
+			log.line(head + ks("k", "first") + "," + kv("n", n) + ",\"r\":" + rle(r) + "}");
+		}
+		else
+		{
+			if (!nulFree(b)) return;
+			Array<String> ls;
+			int v = rng.below(3);
+			if (v == 0) ls = h.lines();
+			else if (v == 1) while (!h.end()) ls << h.readLine();
+			else while (!h.end()) { String s; h.readLine(s); ls << s; }
+			if (ex) { hmode = "r"; hpos = sz; heof = true; }
+			log.line(head + ks("k", v == 0 ? "lines" : "loop") + ",\"n\":0,\"r\":" + rleList(toVec(ls)) + "}");
+		}
+		if (bias == 0 && rng.chance(60)) bias = rng.range(2, 6);
+	}
+
 	void step()
 	{
-		int r = rng.below(100);
+		int r = rng.below(110);
+		if (bias > 0)
+		{
+			bias--;
+			r = rng.chance(65) ? 37 + rng.below(35) : 84 + rng.below(15);
+		}
 		if (r < 14) // put through a temporary
 		{
 			std::string x = pickXY();
@@ -320,6 +395,7 @@ struct Exec
 			dirty = false;
 			hpos = 0;
 			heof = false;
+			hknown = -1;
 			log.line("{\"op\":\"close\"}");
 		}
 		else if (r < 80) // read(n) through the open object
@@ -349,6 +425,14 @@ struct Exec
 			hpos = (long)b.size();
 			heof = true;
 			log.line(std::string("{\"op\":\"hlines\",") + ks("api", k == 0 ? "lines" : "loop") + ",\"r\":" + rleList(toVec(ls)) + "}");
+		}
+		else if (r < 96) hquery();
+		else if (r < 99) // close() on the object that is not open: it forgets what it knew about the file
+		{
+			if (hmode != "closed") return;
+			h.close();
+			hknown = -1;
+			log.line("{\"op\":\"close\"}");
 		}
 		else observe(rng.chance(15) ? "r" : pickXY());
 	}
@@ -509,6 +593,7 @@ int main(int argc, char** argv)
 			ex.h.close();
 			ex.hmode = "closed";
 			ex.dirty = false;
+			ex.hknown = -1;
 			log.line("{\"op\":\"close\"}");
 		}
 		ex.disk("p");
